@@ -5,6 +5,7 @@ package extendeddaemonsetreplicaset
 import (
 	corev1 "k8s.io/api/core/v1"
 	metav1 "k8s.io/apimachinery/pkg/apis/meta/v1"
+	ksmetric "k8s.io/kube-state-metrics/v2/pkg/metric"
 
 	datadoghqv1alpha1 "github.com/DataDog/extendeddaemonset/api/v1alpha1"
 	"github.com/DataDog/extendeddaemonset/zzverif/nondet"
@@ -47,9 +48,15 @@ func ZZ_C20_ersFamilies() {
 		ersStatusIgnoredUnresponsiveNodes: float64(st.IgnoredUnresponsiveNodes),
 		ersStatusCanaryFailed:             b2f(failed),
 	}
+	// every family of the object is generated first, the series are read afterwards (as the store does)
+	gens := generateMetricFamilies()
+	fams := make([]*ksmetric.Family, len(gens))
+	for i, f := range gens {
+		fams[i] = f.GenerateFunc(rs)
+	}
 	seen := 0
-	for _, f := range generateMetricFamilies() {
-		fam := f.GenerateFunc(rs)
+	for i, f := range gens {
+		fam := fams[i]
 		w, known := want[f.Name]
 		nondet.Assert("C20.ers.known-family", known)
 		if !known {
